@@ -29,6 +29,9 @@ struct Result
    /// the run was abandoned by a non-local jump (step budget, exit(), assert):
    /// objects were left behind in mid-operation, do not reuse this process
    bool         poisoned = false;
+   /// harness specific additions to the result line (e.g. the executed
+   /// schedule as an explicit switch list)
+   Json         extra;
 
    bool ok() const { return outcome == "OK"; }
    void fail( const std::string& oc, const std::string& orc, const std::string& det)
@@ -76,5 +79,11 @@ public:
 Harness& harness();
 
 int harnessMain( int argc, char* argv[]);
+
+/// Ends a run that cannot be completed in this process (simulated deadlock,
+/// scheduler step cap): reports the result the way the current command would
+/// have and leaves the process with exit code 78. The driver continues with
+/// the next run index in a new process.
+[[noreturn]] void abandonRun( Result r);
 
 } // namespace sim
